@@ -4,9 +4,13 @@
    stdin: "<id>\t<case>"  with case = "S <hex bytes>" | "C <rune>" | "I <decimal>"
    stdout: "<id>\t<hex of the inspect output>"; for S/C/I the driver also reads the printed text
    back with the model's lexer and appends " MODEL-RT-FAIL" if that is not the input (the
-   theorems say this never happens). *)
+   theorems say this never happens).
+   Literal direction (stream c19.lit): "L <literal text>" -> eval_literal: "I<dec>" | "i8:<dec>" | ... |
+   "u:<dec>" | "error";  "T <base> <hex bytes>" and "E <base> <text>" -> to_int: "I<dec>" | "error";
+   "F <text>" (float literals) is not modelled: "-". *)
 open BinNums
 open C19_Inspect
+open C19_Literal
 
 let graphic = Bytes.make 0x110000 '\000'
 
@@ -32,6 +36,12 @@ let is_letter z = let r = int_of_z z in (r >= 65 && r <= 90) || (r >= 97 && r <=
 
 let bytes_of_hex h = List.init (String.length h / 2) (fun i -> z_of_int (int_of_string ("0x" ^ String.sub h (2 * i) 2)))
 let hex_of_bytes l = String.concat "" (List.map (fun z -> Printf.sprintf "%02x" (int_of_z z land 255)) l)
+
+let bytes_of_string t = List.init (String.length t) (fun i -> z_of_int (Char.code t.[i]))
+let tok_name = function
+  | TInt -> "I" | TI8 -> "i8:" | TI16 -> "i16:" | TI32 -> "i32:" | TI64 -> "i64:"
+  | TU8 -> "u8:" | TU16 -> "u16:" | TU32 -> "u32:" | TU64 -> "u64:" | TUInt -> "u:"
+let show_int = function Some v -> "I" ^ Zio.string_of_z v | None -> "error"
 
 let () =
   load Sys.argv.(1);
@@ -59,6 +69,15 @@ let () =
           | [ "LS"; h ] -> (match lex_string_body is_letter (bytes_of_hex h) with Some s -> "S " ^ hex_of_bytes s | None -> "none")
           | [ "LC"; h ] -> (match lex_char_body (bytes_of_hex h) with Some c -> "C " ^ string_of_int (int_of_z c) | None -> "none")
           | [ "LI"; h ] -> (match eval_int_source (bytes_of_hex h) with Some z -> "I " ^ Zio.string_of_z z | None -> "none")
+          | [ "L"; t ] ->
+            (match eval_literal (bytes_of_string t) with
+             | Some (k, v) -> tok_name k ^ Zio.string_of_z v
+             | None -> "error")
+          | [ "T"; b; h ] -> show_int (to_int (bytes_of_hex h) (z_of_int (int_of_string b)))
+          | [ "T"; b ] -> show_int (to_int [] (z_of_int (int_of_string b)))
+          | [ "E"; b; t ] -> show_int (to_int (bytes_of_string t) (z_of_int (int_of_string b)))
+          | [ "E"; b ] -> show_int (to_int [] (z_of_int (int_of_string b)))
+          | "F" :: _ -> "-"
           | _ -> "bad-input"
         in
         print_string (id ^ "\t" ^ out ^ "\n")
